@@ -33,12 +33,12 @@ pub open spec fn did_open_post(o: Backend, s: Backend, uri: Uri, text: Seq<char>
         Some(p) => analyze_file_post(o.fixture_db, s.fixture_db, p, text) && s.uri_cache.m() == o.uri_cache.m().insert(p, uri),
     }
 }
-/// didChange (full document sync): ONLY the first content change is used; an empty list changes nothing; the URI
+/// didChange (full document sync): the LAST content change is the document's latest content and the only one analysed (after fix faeeb2a; F-06b); an empty list changes nothing; the URI
 /// cache is not touched
 pub open spec fn did_change_post(o: Backend, s: Backend, uri: Uri, changes: Seq<TextDocumentContentChangeEvent>) -> bool {
     s.uri_cache.m() == o.uri_cache.m() && match uri_path(uri) {
         None => s.fixture_db == o.fixture_db,
-        Some(p) => if changes.len() == 0 { s.fixture_db == o.fixture_db } else { analyze_file_post(o.fixture_db, s.fixture_db, p, changes[0].text@) },
+        Some(p) => if changes.len() == 0 { s.fixture_db == o.fixture_db } else { analyze_file_post(o.fixture_db, s.fixture_db, p, changes.last().text@) },
     }
 }
 /// didClose: the cached text / per-file memo entries of the (canonical) path and its URI-cache entry go; the INDEX
